@@ -82,6 +82,7 @@ func GenHistory(t *rapid.T, queries string) History {
 	phase := rapid.SampledFrom([]int{0, 0, 0, 3}).Draw(t, "phase0")
 	hx, hy := rapid.IntRange(0, grid).Draw(t, "hotx"), rapid.IntRange(0, grid).Draw(t, "hoty")
 	hotWide := rapid.Bool().Draw(t, "hotwide")
+	hotOrder, hotCount := rapid.SampledFrom([]int{0, 0, 1, 2, 3}).Draw(t, "hotorder"), 0
 	h.Float = rapid.IntRange(0, 2).Draw(t, "float") == 1
 	// one history in twelve stores many objects without any point (whole nodes of them)
 	emptyHeavy := rapid.IntRange(0, 11).Draw(t, "emptyheavy") == 7
@@ -111,6 +112,19 @@ func GenHistory(t *rapid.T, queries string) History {
 			r := rapid.SampledFrom([]int{0, 0, 0, 1, 2, 3, 5}).Draw(t, "hotr")
 			if hotWide {
 				r = rapid.IntRange(0, 45).Draw(t, "hotrwide") // many distinct sizes: strictly nested boxes, no two alike
+			}
+			if hotOrder != 0 {
+				// every box of the hot spot of another size than all the others (the smallest one is unique): growing,
+				// shrinking, or in a scrambled order
+				hotCount++
+				switch hotOrder {
+				case 1:
+					r = hotCount
+				case 2:
+					r = 90 - hotCount%90
+				default:
+					r = 1 + (hotCount*37)%89
+				}
 			}
 			op.K, op.Box = "ins", [4]int{hx - r, hy - r, 2 * r, 2 * r}
 		case "ins":
